@@ -78,7 +78,10 @@ func (ts *TagSet) Merge(other *TagSet) *TagSet {
 	if other == nil || ts.Schema != other.Schema {
 		return ts
 	}
-	nl := ts.List // shallow copy
+	// copy the list, appending to the original could write into the
+	// spare capacity of an array shared with the regime or addon definition
+	nl := make([]*cbc.Definition, len(ts.List), len(ts.List)+len(other.List))
+	copy(nl, ts.List)
 	for _, t := range other.List {
 		found := false
 		for _, nlt := range nl {
